@@ -93,6 +93,12 @@ M('send-peer-loop-invariant', ['C09'],
   (RT, "            if peer_pid != self.pid:\n                self._send_message(peer_pid, indata)", "            if peer_pid != self.pid:\n                self._send_message(my_receivers[0], indata)"))
 
 # ---------------------------------------------------------------- benign variants (must stay silent everywhere)
+# ---------------------------------------------------------------- OP6
+M('revert-fix-ufunc-reflected', ['C37', 'C01'], ('sectypes', "            if rop := reflected_ops.get(op):  # e.g., a < b iff b > a\n                return rop(inputs[1], inputs[0])\n\n", ""))
+M('ufunc-mirror-wrong', ['C37', 'C01'], ('sectypes', "operator.gt: operator.lt, operator.ge: operator.le}", "operator.gt: operator.le, operator.ge: operator.lt}"))
+M('ufunc-reflected-method-wrong', ['C37'], ('sectypes', "operator.floordiv: '__rfloordiv__', operator.mod: '__rmod__',", "operator.floordiv: '__rmod__', operator.mod: '__rfloordiv__',"))
+M('ufunc-drop-reflected-methods', ['C37'], ('sectypes', "            if rname := reflected_methods.get(op):\n                return getattr(inputs[1], rname)(inputs[0])\n\n", ""))
+
 B('rename-local-pcw',
   (AC, "            pc = self.runtime._program_counter\n            self.runtime._program_counter = self.pc\n",
        "            saved = self.runtime._program_counter\n            self.runtime._program_counter = self.pc\n"),
